@@ -27,12 +27,17 @@
 
 namespace vb {
 
+int64_t clockNs = kEpochNs;
 std::vector<Effect> effects;
+double killLatencySec = 0;
+static void pushEffect(Effect e) {
+  e.tNs = clockNs;
+  effects.push_back(std::move(e));
+}
 bool logOpens = false;
 long accessCount = 0;
 bool dtUnknown = false;
 std::string root;
-int64_t clockNs = kEpochNs;
 std::function<int(int, int)> onKill;
 std::function<void(const std::string&, const std::string&)> onCtlWrite;
 std::function<int(const char*, const std::string&)> onAccess;
@@ -106,11 +111,11 @@ static int access(const char* op, const std::string& full) {
     int e = onAccess(op, full);
     bypassDepth--;
     if (e > 0) {
-      if (logOpens) effects.push_back(Effect{"open", full, op, "", accessCount, 0, -1, e});
+      if (logOpens) pushEffect(Effect{"open", full, op, "", accessCount, 0, -1, e});
       return e;
     }
   }
-  if (logOpens) effects.push_back(Effect{"open", full, op, "", accessCount, 0, 0, 0});
+  if (logOpens) pushEffect(Effect{"open", full, op, "", accessCount, 0, 0, 0});
   return 0;
 }
 
@@ -429,8 +434,9 @@ struct dirent64* readdir64(DIR* d) {
 typedef int (*kill_t)(pid_t, int);
 int kill(pid_t pid, int sig) {
   if (active) {  // NEVER forwarded
+    if (killLatencySec > 0) clockNs += (int64_t)(killLatencySec * 1e9);
     int e = onKill ? onKill(pid, sig) : ESRCH;
-    effects.push_back(Effect{"kill", "", "", "", (long)pid, (long)sig, e ? -1 : 0, e});
+    pushEffect(Effect{"kill", "", "", "", (long)pid, (long)sig, e ? -1 : 0, e});
     if (e) {
       errno = e;
       return -1;
@@ -453,7 +459,7 @@ int setxattr(const char* path, const char* name, const void* value, size_t size,
     ret = f(path, name, value, size, flags);
     e = ret ? errno : 0;
   }
-  effects.push_back(Effect{"setxattr", p, name, std::string((const char*)value, size), 0, 0, ret, e});
+  pushEffect(Effect{"setxattr", p, name, std::string((const char*)value, size), 0, 0, ret, e});
   errno = e;
   return ret;
 }
@@ -483,11 +489,11 @@ ssize_t write(int fd, const void* buf, size_t n) {
   if (!underRoot(p.c_str())) return rwrite(fd, buf, n);
   std::string data((const char*)buf, n);
   if (p == root + "/kmsg") {
-    effects.push_back(Effect{"kmsg", p, data, "", 0, 0, 0, 0});
+    pushEffect(Effect{"kmsg", p, data, "", 0, 0, 0, 0});
     return n;
   }
   if (p.compare(0, rootLen + 4, root + "/cg/") == 0 || p.compare(0, rootLen + 6, root + "/proc/") == 0) {
-    effects.push_back(Effect{"ctlwrite", p, data, "", 0, 0, 0, 0});
+    pushEffect(Effect{"ctlwrite", p, data, "", 0, 0, 0, 0});
     bypassDepth++;
     if (onCtlWrite)
       onCtlWrite(p, data);
@@ -509,7 +515,7 @@ long syscall(long nr, ...) {
   va_end(ap);
   if (active && !bypassDepth && (nr == SYS_pidfd_open || nr == 448 /* process_mrelease */)) {
     long r = onSyscall ? onSyscall(nr, a, b) : -ESRCH;
-    effects.push_back(Effect{"syscall", "", nr == SYS_pidfd_open ? "pidfd_open" : "process_mrelease", "", a, b,
+    pushEffect(Effect{"syscall", "", nr == SYS_pidfd_open ? "pidfd_open" : "process_mrelease", "", a, b,
                              (int)(r < 0 ? -1 : r), (int)(r < 0 ? -r : 0)});
     if (r < 0) {
       errno = (int)-r;
@@ -538,7 +544,7 @@ int nanosleep(const struct timespec* req, struct timespec* rem) {
   if (active && !bypassDepth) {
     int64_t ns = req->tv_sec * 1000000000LL + req->tv_nsec;
     clockNs += ns;
-    effects.push_back(Effect{"sleep", "", "", "", (long)(ns / 1000000), 0, 0, 0});
+    pushEffect(Effect{"sleep", "", "", "", (long)(ns / 1000000), 0, 0, 0});
     if (rem) rem->tv_sec = rem->tv_nsec = 0;
     return 0;
   }
@@ -551,7 +557,7 @@ int clock_nanosleep(clockid_t c, int flags, const struct timespec* req, struct t
     int64_t ns = req->tv_sec * 1000000000LL + req->tv_nsec;
     if (flags & TIMER_ABSTIME) ns = ns > clockNs ? ns - clockNs : 0;
     clockNs += ns;
-    effects.push_back(Effect{"sleep", "", "", "", (long)(ns / 1000000), 0, 0, 0});
+    pushEffect(Effect{"sleep", "", "", "", (long)(ns / 1000000), 0, 0, 0});
     if (rem) rem->tv_sec = rem->tv_nsec = 0;
     return 0;
   }
